@@ -48,13 +48,13 @@ func init() {
 				return map[string]string{
 					"Parse sources": "(a) every string of length 0..5 over the alphabet {':','1','a',' ','#',CR,LF} chosen by the solver; (b) 1..2 lines from 8 templates (good, bad, empty, comment, CR-terminated) with every terminator combination (LF, CRLF, none)",
 					"reader":        "chunk size 1, 2, 3, 5 or everything; two (0,nil) reads before the 1st..3rd data read or never; EOF with the last data or separately; with and without a source name; destination Set or HandleSet; scan buffer of capacity 4 (growth exercised)",
-					"storage":       "1..2 Add calls, records with 0..2 names of one symbolic letter [a-cA-C], addresses from a pool of two symbolic IPv4 and one symbolic IPv6 address; ByName queried in both letter cases",
+					"storage":       "1..2 Add calls, records with 0..2 names of one symbolic ASCII letter [a-zA-Z], addresses from a pool of two symbolic IPv4 and one symbolic IPv6 address; ByName queried in both letter cases",
 				}
 			}
 			return map[string]string{
 				"Parse sources": "(a) every string of length 0..4 over the alphabet {':','1','a',' ','#',CR,LF} chosen by the solver; (b) 1..2 lines from 7 templates with every terminator combination (LF, CRLF, none)",
 				"reader":        "chunk size 1, 3 or everything; two (0,nil) reads before the 1st..2nd data read or never; EOF with the last data or separately; with and without a source name; destination Set or HandleSet; scan buffer of capacity 4",
-				"storage":       "1..2 Add calls, records with 0..2 names of one symbolic letter [a-cA-C], addresses from a pool of two symbolic IPv4 and one symbolic IPv6 address; ByName queried in both letter cases",
+				"storage":       "1..2 Add calls, records with 0..2 names of one symbolic ASCII letter [a-zA-Z], addresses from a pool of two symbolic IPv4 and one symbolic IPv6 address; ByName queried in both letter cases",
 			}
 		},
 		Outside:     []string{"sources longer than the bound", "readers returning more than two consecutive (0,nil) (bufio gives up after 100)", "names longer than one letter and non-ASCII names in the storage harness", "log output of HandleInvalid"},
